@@ -491,6 +491,9 @@ pub fn run_w(line: &str) -> Result<String, String> {
 		Err(_) => return Ok("freeze-err".into()),
 	};
 	let shared = std::rc::Rc::new(std::cell::RefCell::new(vec![]));
+	// (a sink that accepts everything cannot make the flush of `Drop` fail: only then is the drop
+	// also exercised while the thread is unwinding, where a failure would be swallowed)
+	let drop_while_unwinding = sched.is_empty() && line.len() % 2 == 1;
 	let sink = SchedSink { data: shared.clone(), sched: sched.into_iter().collect() };
 	let mut config = serde_avro_fast::ser::SerializerConfig::new(&schema);
 	let sync_arr: [u8; 16] = sync.clone().try_into().map_err(|_| "sync marker must be 16 bytes")?;
@@ -528,6 +531,16 @@ pub fn run_w(line: &str) -> Result<String, String> {
 			WOp::Into => {
 				let w = writer.take().unwrap();
 				std::panic::catch_unwind(std::panic::AssertUnwindSafe(|| w.into_inner().map(|_| ()).map_err(|_| ())))
+			}
+			WOp::Drop if drop_while_unwinding => {
+				// the writer goes out of scope because a panic unwinds through its owner (a value
+				// that was `unwrap`ped, an unrelated bug): what was serialized must still reach the sink
+				let w = writer.take().unwrap();
+				let _ = std::panic::catch_unwind(std::panic::AssertUnwindSafe(move || {
+					let _owner = w;
+					std::panic::resume_unwind(Box::new(()));
+				}));
+				Ok(Ok(()))
 			}
 			WOp::Drop => {
 				let w = writer.take().unwrap();
